@@ -35,8 +35,10 @@ def kani(name, props, clause, fn, tier="quick", timeout=600, bounded=None, pkg="
 
 
 def native(name, props, clause, fn, test, tier="quick", timeout=240, pkg="bemodel", crash=False, scope=None,
-           timeout_thorough=1500, bins=False):
-    return {"bins": bins, "backend": N, "name": name, "props": props, "clause": clause, "fn": fn, "test": test, "tier": tier,
+           timeout_thorough=1500, bins=False, sampled=None):
+    # sampled: None = the stated scope is enumerated completely; "quick" = the quick tier runs a slice of a finite
+    # space that the thorough tier enumerates completely; "always" = a sample of an unbounded space in both tiers
+    return {"bins": bins, "sampled": sampled, "backend": N, "name": name, "props": props, "clause": clause, "fn": fn, "test": test, "tier": tier,
             "timeout": timeout, "timeout_thorough": timeout_thorough, "pkg": pkg, "crash_is_violation": crash,
             "scope": scope}
 
@@ -90,6 +92,7 @@ OBLIGATIONS = [
     # ---- C13 ------------------------------------------------------------------------------------------
     kani("c13_aabb_join", ["C13"], "C13.aabb.join", "AABB::join / AABB::default"),
     verus("bvh_builder", ["C13", "C14"], "C13.builder", "BVH::generate_node_list"),
+    verus("bvh_traversal", ["C13", "C12"], "C13.traversal", "PreorderIter::next (bemodel/src/energy/raytracing/bvh.rs, verbatim)"),
     # ---- C17 / C03 (convert) -------------------------------------------------------------------------
     kani("c17_day_of_year", ["C17"], "C17.doy", "convert::from_ctehexml::day_of_year"),
     kani("c03_azimuth_convention", ["C03"], "C03.azimuth", "convert::orientation_bdl_to_52016"),
@@ -140,24 +143,26 @@ OBLIGATIONS = [
     native("n_c17_year_expand", ["C17"], "C17.year.expand", "SchedulesDb::get_year_as_day_sch / year_values", RN + "n_c17_year_expand"),
     native("n_c17_occupancy", ["C17"], "C17.occupancy", "EnergyProps::from(&Model) (occ_spaces_hours_in_use, occ_spaces_average_load, loads_avg)", RN + "n_c17_occupancy"),
     native("n_c02_shipped_closed", ["C02"], "C02.shipped", "hulc::ctehexml::parse_with_catalog / bdl::Data::new_from_path + Model::try_from (IdMaps, cons_from_bdl, spaces/walls/windows/schedules/loads/thermostats_from_bdl) + checks::check", CV + "n_c02_shipped_closed"),
-    native("n_c02_value_edits", ["C02"], "C02.value_edits", "hulc::ctehexml::parse_with_catalog + Model::try_from (cons_from_bdl purge of unused glazings / frames / materials) on projects with one rewritten number", CV + "n_c02_value_edits", timeout=900, timeout_thorough=6000),
+    native("n_c02_protections", ["C02"], "C02.protections", "windows_and_shades_from_bdl (ids of the overhang / fin shades generated from window attributes)", CV + "n_c02_protections"),
+    native("n_c02_value_edits", ["C02"], "C02.value_edits", "hulc::ctehexml::parse_with_catalog + Model::try_from (cons_from_bdl purge of unused glazings / frames / materials) on projects with one rewritten number", CV + "n_c02_value_edits", timeout=900, timeout_thorough=6000, sampled="quick"),
     native("n_c02_broken_refs", ["C02"], "C02.broken", "hulc::ctehexml::parse_with_catalog + Model::try_from on projects with one dangling name", CV + "n_c02_broken_refs"),
-    native("n_c05_convert_repeat", ["C05"], "C05.convert", "hulc::ctehexml::parse_with_catalog + Model::try_from + Model::as_json (uuid_from_obj ids, collection order)", CV + "n_c05_convert_repeat", timeout=600),
+    native("n_c05_convert_repeat", ["C05"], "C05.convert", "hulc::ctehexml::parse_with_catalog + Model::try_from + Model::as_json (uuid_from_obj ids, collection order)", CV + "n_c05_convert_repeat", timeout=600, sampled="always"),
     native("n_c05_ids_local", ["C05"], "C05.ids", "bemodel::utils::uuid_from_obj / IdMaps::new (ids from the element's own definition)", CV + "n_c05_ids_local", timeout=600),
     native("n_c05_reference_models", ["C05"], "C05.reference", "hulc::ctehexml::parse_with_catalog + Model::try_from against bemodel/tests/data/*.json", CV + "n_c05_reference_models"),
-    native("n_c05_indicators_history", ["C05"], "C05.indicators", "Model::energy_indicators (global climate / radiation tables behind Mutex / lazy statics)", CV + "n_c05_indicators_history", timeout=900),
+    native("n_c05_indicators_history", ["C05"], "C05.indicators", "Model::energy_indicators (global climate / radiation tables behind Mutex / lazy statics)", CV + "n_c05_indicators_history", timeout=900, sampled="always"),
     native("n_c01_export_tool", ["C01"], "C01.export", "hulc2model::cli::cli_main (the built hulc2model binary), thor main (the built thor binary) against hulc2model::collect_hulc_data / Model::try_from", "verif_hulc2model::n::n_c01_export_tool", pkg="hulc2model", bins=True, timeout=900),
-    native("n_c19_extra_files", ["C19"], "C19.extra_files", "hulc2model::collect_hulc_data -> fix_ecdata_from_extra (hulc::kyg::parse_from_path, hulc::tbl::parse)", "verif_hulc2model::n::n_c19_extra_files", pkg="hulc2model", timeout=900, timeout_thorough=6000),
-    native("n_c18_blocks", ["C18"], "C18.blocks", "hulc::bdl::build_blocks (sanitize_lider_data, clean_lines, BdlBlock::from_str, parse_attributes, AttrMap::insert, extract_namesvec, extract_f32vec)", "bdl::verif_hulc_bdl::n::n_c18_blocks", pkg="hulc", timeout=900, timeout_thorough=6000),
+    native("n_c19_extra_files", ["C19"], "C19.extra_files", "hulc2model::collect_hulc_data -> fix_ecdata_from_extra (hulc::kyg::parse_from_path, hulc::tbl::parse)", "verif_hulc2model::n::n_c19_extra_files", pkg="hulc2model", timeout=900, timeout_thorough=6000, sampled="quick"),
+    native("n_c18_blocks", ["C18"], "C18.blocks", "hulc::bdl::build_blocks (sanitize_lider_data, clean_lines, BdlBlock::from_str, parse_attributes, AttrMap::insert, extract_namesvec, extract_f32vec)", "bdl::verif_hulc_bdl::n::n_c18_blocks", pkg="hulc", timeout=900, timeout_thorough=6000, sampled="always"),
     native("n_c18_relayout_real", ["C18"], "C18.relayout", "hulc::bdl::Data::new (block parser + typed elements: Space, Wall, Window, Polygon, Shading, ThermalBridge, Floor, Material, WallCons, WinCons, Glass, Frame, schedules)", "bdl::verif_hulc_bdl::n::n_c18_relayout_real", pkg="hulc", timeout=900, timeout_thorough=6000),
     native("n_c18_typed", ["C18"], "C18.typed", "hulc::bdl::Data::new: TryFrom<BdlBlock> for Window / Wall / Space / Polygon / Material / WallCons / Glass / Frame / WinCons / Shading / ThermalBridge", "bdl::verif_hulc_bdl::n::n_c18_typed", pkg="hulc"),
     native("n_c18_tbl_layout", ["C18"], "C18.tbl", "hulc::tbl::parse", "bdl::verif_hulc_bdl::n::n_c18_tbl_layout", pkg="hulc"),
     native("n_c18_results_values", ["C18"], "C18.results", "hulc::kyg::parse, hulc::tbl::parse (Element::from_str)", "bdl::verif_hulc_bdl::n::n_c18_results_values", pkg="hulc"),
     native("n_c18_kyg_layout", ["C18"], "C18.kyg", "hulc::kyg::parse", "bdl::verif_hulc_bdl::n::n_c18_kyg_layout", pkg="hulc"),
+    kani("c19_day_of_year_total", ["C19"], "C19.day_of_year.total", "bemodel::convert::from_ctehexml::day_of_year for every (u32, u32)", timeout=600),
     kani("c19_angle_helpers_total", ["C19", "C14"], "C19.angles.total", "bemodel::utils::normalize, convert::normalize_azimuth, orientation_bdl_to_52016, Tilt::from(f32), Orientation::from(f32) for every f32 incl. inf / NaN", timeout=600),
-    native("n_c19_projects", ["C19"], "C19.projects", "hulc::ctehexml::parse_with_catalog (roxmltree, bdl::Data::new, block / attribute parsers, geometry) + Model::try_from", CV + "n_c19_projects", timeout=900, timeout_thorough=14000),
-    native("n_c19_legacy", ["C19"], "C19.legacy", "hulc::bdl::Data::new + Model::try_from on legacy LIDER files", CV + "n_c19_legacy", timeout=900, timeout_thorough=14000),
-    native("n_c19_results", ["C19"], "C19.results", "hulc::kyg::parse, hulc::tbl::parse", CV + "n_c19_results", timeout=600, timeout_thorough=3000),
+    native("n_c19_projects", ["C19"], "C19.projects", "hulc::ctehexml::parse_with_catalog (roxmltree, bdl::Data::new, block / attribute parsers, geometry) + Model::try_from", CV + "n_c19_projects", timeout=900, timeout_thorough=14000, sampled="quick"),
+    native("n_c19_legacy", ["C19"], "C19.legacy", "hulc::bdl::Data::new + Model::try_from on legacy LIDER files", CV + "n_c19_legacy", timeout=900, timeout_thorough=14000, sampled="quick"),
+    native("n_c19_results", ["C19"], "C19.results", "hulc::kyg::parse, hulc::tbl::parse", CV + "n_c19_results", timeout=600, timeout_thorough=3000, sampled="quick"),
     native("n_c03_conversion", ["C03"], "C03.conversion", "hulc::ctehexml::parse_with_catalog + Model::try_from (wall_geometry, windows_and_shades_from_bdl, shades_from_bdl, compute_wall_angle_with_space_north, Polygon::edge_vertices / edge_normal_to_y / mirror_y / rotate)", CV + "n_c03_conversion"),
     native("n_c17_convert_year", ["C17"], "C17.convert.year", "convert::schedules_from_bdl / day_of_year", CV + "n_c17_convert_year"),
     native("n_c17_convert_week_day", ["C17"], "C17.convert.week", "convert::schedules_from_bdl", CV + "n_c17_convert_week_day"),
@@ -185,11 +190,11 @@ OBLIGATIONS = [
 ]
 
 PROPERTIES = {
-    "C18": {"level": "exploration"},
-    "C01": {"level": "exploration"},
-    "C19": {"level": "fault_enumeration"},
-    "C05": {"level": "exploration"},
-    "C02": {"level": "exploration"},
+    "C18": {"level": "exploration", "rule": "C18.blocks: descriptions generated from the description number by a fixed LCG (200 quick / 2000 thorough - a sample of an unbounded space) x all 864 layouts; C18.relayout / typed / results: every shipped file x every listed layout or rewrite (complete); a case is non-trivial when the parser returned data (distinct keys: description or file, size, layout / rewrite)"},
+    "C01": {"level": "exploration", "rule": "every shipped project directory x {default, --use-extra} x {hulc2model, thor -o} plus three directories without project, enumerated completely (45 process runs); a case is non-trivial when a binary was run and compared with the library"},
+    "C19": {"level": "fault_enumeration", "rule": "every shipped file x every line of the tier's slice (quick: every 8th / 20th / 4th / 6th line offset by VERIF_SEED; thorough: every line) x 11 kinds of single-line damage, enumerated by choice vector; an edit that does not apply to the line is skipped and not counted as non-trivial; distinct_nontrivial counts distinct (file kind, damage kind, outcome) classes, not cases"},
+    "C05": {"level": "exploration", "rule": "every shipped project / model x the listed repetitions, twins and variants, enumerated completely; thread interleavings and process runs are sampled by running (16 threads, one fresh process per case), not explored; a case is non-trivial when a conversion or an indicator computation was compared"},
+    "C02": {"level": "exploration", "rule": "every shipped project / legacy file; every referenced definition of every project renamed (two ways) or removed; the first number of every line of the tier's slice (quick: every 6th line; thorough: every line) rewritten to 5 values; a case is non-trivial when the conversion ran to a model or to an error (distinct keys: project, block kind, outcome)"},
     "C04": {"level": "exploration"},
     "C03": {"level": "proof", "undecided_clauses": ["global positions within 1 cm, outward normals, shade corner points, rotation of the whole building: all run through Rotation3/Rotation2 (sin/cos) - no contract within reach decides them"]},
     "C06": {"level": "proof", "undecided_clauses": ["numeric value of the EN ISO 13370 slab and basement-wall formulas (ln): only panic-freedom and the not-buried identities are proved; values are checked by the bounded obligation C06.ground"]},
@@ -216,13 +221,13 @@ MANIFEST_TEXT = {
             "text": "Bounded: C18.blocks - 200 (thorough 2000) generated descriptions of 1..40 blocks of 28 kinds with 1..6 attributes (number, bare word, quoted text with blanks / commas / accents, name list, number list) printed in 864 layouts (LF / CRLF, comments and blank lines, indentation and trailing blanks, attribute order, 3 number formats, quoted words, 3 list layouts incl. ')' on its own line, legacy preamble): name, type, parent and every attribute value of every block. C18.relayout - the BDL text of the 12 projects and 56 legacy files re-printed line by line in 12 (thorough 432) layouts gives the same bdl::Data. C18.typed - every window, wall, space + polygon, material, layer set, glazing, frame, window construction, rectangular shade and thermal bridge of the 68 files against the values written in its block, with the documented legacy defaults. C18.kyg / C18.tbl - either decimal separator, blanks, line ends. Not covered: blocks without attributes, other spacing around '=', the old KyG column layout.",
             "note": "The typed oracle reads the written values through the generic block parser, whose own recovery is what C18.blocks checks against the printed description; the printer emits only the layouts listed. " + _TB},
     "C01": {"technique": "contract on cli_main / thor main (exit status and standard output as postcondition), observed by running the real binaries built from the scratch copy and comparing with collect_hulc_data / Model::try_from called in-process (bounded stand-in; no verifier here models process I/O)",
-            "text": "Bounded: the hulc2model binary on the 12 shipped project directories x {default, --use-extra} exits 0 and its standard output is exactly one JSON document (serde_json rejects any other text around it) that loads as the model the library yields; on an empty directory, a directory without project and a missing one it exits non-zero and writes no JSON; thor -o writes byte-identical library JSON for the 12 project files. 45 process runs per check; nothing is discharged deductively.",
+            "text": "Bounded: the hulc2model binary on the 12 shipped project directories x {default, --use-extra} (also given with a trailing slash and as a relative path) exits 0 and its standard output is exactly one JSON document (serde_json rejects any other text around it) that loads as the model the library yields (compared with the library's model itself); on an empty directory, a directory without project, a missing one and two directories whose project the library rejects (file cut in half, broken reference) it exits non-zero and writes no JSON; thor -o writes byte-identical library JSON for the 12 project files, into a new file and over an existing longer one. About 130 process runs per check; nothing is discharged deductively.",
             "note": "Only the shipped projects are run; 'synthetic projects written by the verifier's BDL printer' of the property text are not generated. " + _TB},
     "C19": {"technique": "Kani proofs that Polygon::edge_vertices / mirror_y are total (no panic for any vertex name / an empty polygon) + contract 'returns Ok or Err, never panics, returns within 60 s' on parse_with_catalog + Model::try_from, bdl::Data::new, kyg::parse, tbl::parse and collect_hulc_data, evaluated on the real code over single-line damage of every shipped file (bounded stand-in; quick = a seeded slice, thorough = every line)",
             "text": "Bounded: 8 kinds of single-line damage (line deleted / duplicated, truncation, number -> text / 1e39 / -7, block removed, reference renamed) applied to every 8th line of the 12 .ctehexml projects, every 20th line of the 56 legacy .cte files, every 4th line of the KyG / tbl files and every 6th line of the result files of two projects read through collect_hulc_data (quick, offset by VERIF_SEED); thorough applies them to every line (2.7 million damaged files). Each crash site is its own obligation clause; the crash sites in the unfinished systems parser are listed as known findings, every other site is a violation.",
             "note": "A crash is identified by source file + normalised panic message, so two unwrap() sites of one file with the same message share an identity. " + _TB},
     "C02": {"technique": "contract on Model::try_from(&CtehexmlData) written from the statement (result is a closed model with unique ids, or Err - never a panic, never a silently dropped link), evaluated on the natively compiled real parser + converter over the shipped corpus and every single renamed / removed definition (bounded stand-in)",
-            "text": "Bounded: every shipped project (12 .ctehexml, 56 legacy .cte; 62 convert) yields a model whose 15 id collections are duplicate- and nil-free and whose every listed link resolves (own oracle, plus Model::check silent); every referenced definition of every shipped project renamed (two ways) or removed, one at a time (7458 edited projects): the outcome is an error, or a closed model that has lost none of the optional links of the intact project. No obligation is discharged deductively: the converter is String-keyed BTreeMap lookups over the parser's data and md5-of-Debug-text ids, beyond Kani (symbolic Data infeasible) and Verus (iterator / str code).",
+            "text": "Bounded: every shipped project (12 .ctehexml, 56 legacy .cte; 62 convert) yields a model whose 15 id collections are duplicate- and nil-free and whose every listed link resolves (own oracle, plus Model::check silent); every referenced definition of every shipped project renamed (two ways) or removed, one at a time (7458 edited projects): the outcome is an error, or a closed model that has lost none of the optional links of the intact project; the first number of every 6th line (thorough: every line, 229 000 projects) rewritten to -7 / 0 / 100 / 1 / 1e39, and fins / overhangs (incl. symmetric fins) written on every window: still closed - ids of generated shades included - or an error. No obligation is discharged deductively: the converter is String-keyed BTreeMap lookups over the parser's data and md5-of-Debug-text ids, beyond Kani (symbolic Data infeasible) and Verus (iterator / str code).",
             "note": "Exhaustive only over the shipped corpus and its single-definition edits; uniqueness of md5-derived ids is observed, not proved. " + _TB},
     "C04": {"technique": "Kani proof of the serde helper pairs (a value is skipped only if it is the value the default helper gives back, every f32 / bool) + contract on the pair Model::as_json / Model::from_json (from_json(as_json(m)) == m in every field, as_json idempotent, shipped files re-serialise to the same JSON value), enumerated on the real serde code over a model with every element kind and all single / pairs of 34 optional-or-defaulted field flips (bounded stand-in)",
             "text": "Bounded: a generated model carrying every collection, both material variants, overrides and the 'extra' block, with none / each one / each pair of 34 optional or defaulted fields flipped between absent-or-default and present-and-different (596 distinct models): loading back the serialised text gives a model equal in every field (Debug text of the whole model), and serialising again gives the identical text. The 7 shipped model files load and re-serialise to the same JSON value (numbers compared as f32), no key dropped or added. Deductive part: multiplier_is_1 / default_1, is_true / default_true and is_default agree for every f32 and bool (Kani). Which field carries which pair lives in serde derive attributes, and number formatting in serde_json: neither verifier can read those, so the rest is bounded.",
